@@ -856,12 +856,14 @@ def exec_loop(self, node, st, iterable):
         if n not in h.env:
             # first assigned inside the loop: at the head of an arbitrary iteration it may or may not be bound yet.
             # Reading it unbound would be an UnboundLocalError in Python; we do not prove boundness (assumption A9).
+            # (the loop's own target is assigned at the head of every iteration: no assumption there)
+            is_target = is_for and n in {x.id for x in ast.walk(node.target) if isinstance(x, ast.Name)}
             hint = self.cur_contract.locals.get(n) if self.cur_contract else None
             if hint is not None:
                 h.env[n] = self.fresh_of_type(hint, h, n)
-                self.assume_log(f"A9: local {n} is bound whenever it is read (first assigned inside a loop)")
             elif self.lenient:
                 h.env[n] = Unknown(f"local {n} first assigned inside the loop")
+            if n in h.env and not is_target:
                 self.assume_log(f"A9: local {n} is bound whenever it is read (first assigned inside a loop)")
         if n in h.env:
             cur = h.env[n]
